@@ -153,3 +153,21 @@ SPECS += [
     dict(name="c05-routed-frame-also-queued", file=MX, checks=["C05"], old="                # pass it along\n                self._write(self.frame_buf.header.to_node, TX_ROUTED)\n                return (True, 0)", new="                # pass it along\n                self.queue.enqueue(self.frame_buf)\n                self._write(self.frame_buf.header.to_node, TX_ROUTED)\n                return (True, 0)"),
     dict(name="c06-more-fragment-any-counter", file=ST, checks=["C06"], old="                elif self._frags.header.reserved - 1 != frame.header.reserved:", new="                elif self._frags.header.reserved - 1 < frame.header.reserved:"),
 ]
+
+SPECS += [
+    # ---- third batch
+    dict(name="c14-multicast-always-cut-to-24", file=MX, checks=["C14"], old="        if not self._validate_msg_len(len(message)):\n            message = message[:MAX_FRAG_SIZE]\n        level = self._net_lvl",
+         new="        message = message[:MAX_FRAG_SIZE]\n        level = self._net_lvl"),
+    dict(name="c14-mclevel-setter-opens-old-level", file=MX, checks=["C14", "C07"], old="        lvl = min(4, max(lvl, 0))\n        self._net_lvl = lvl\n        self._rf24.listen = False\n        self._rf24.open_rx_pipe(0, self._pipe_address(_lvl_2_addr(lvl), 0))",
+         new="        lvl = min(4, max(lvl, 0))\n        self._rf24.listen = False\n        self._rf24.open_rx_pipe(0, self._pipe_address(_lvl_2_addr(self._net_lvl), 0))\n        self._net_lvl = lvl"),
+    dict(name="c18-hop-to-81", file=BLE, checks=["C18"], old="BLE_FREQ = (2, 26, 80)", new="BLE_FREQ = (2, 26, 81)"),
+    dict(name="c18-name-limit-plus-one", file=BLE, checks=["C18"], old="            if len(_name) > (18 - self._show_dbm * 3):", new="            if len(_name) > (19 - self._show_dbm * 3):"),
+    dict(name="c18-show-pa-limit", file=BLE, checks=["C18"], old="len(self._ble_name) > 16:", new="len(self._ble_name) > 17:"),
+    dict(name="c18-hop-stuck-at-39", file=BLE, checks=["C18"], old="        self._curr_freq += 1 if self._curr_freq < 2 else -2", new="        self._curr_freq += 1 if self._curr_freq < 2 else 0"),
+    dict(name="c11-header-unpack-swaps-to-from", file=ST, checks=["C11"], old="            self.from_node,\n            self.to_node,\n            self.frame_id,", new="            self.to_node,\n            self.from_node,\n            self.frame_id,"),
+    dict(name="c11-frame-unpack-drops-first-message-byte", file=ST, checks=["C11"], old="            self.message = buffer[8:]", new="            self.message = buffer[9:]"),
+    dict(name="c09-enter-skips-tx-addr-when-equal-pipe0", file=RF, checks=["C09", "C03"], old="        self._reg_write_bytes(TX_ADDRESS, self._tx_address)", new="        if self._tx_address != self._pipes[0]:\n            self._reg_write_bytes(TX_ADDRESS, self._tx_address)"),
+    dict(name="c10-read-length-arg-ignored", file=RF, checks=["C10", "C19"], old="        return_size = length if length is not None else self.any()", new="        return_size = self.any()"),
+    dict(name="c03-arc-masks-3-bits", file=RF, checks=["C03"], old="        self._retry_setup = (self._retry_setup & 0xF0) | count", new="        self._retry_setup = (self._retry_setup & 0xF0) | (count & 7)"),
+    dict(name="c13-acks-multicast-frames", file=MX, checks=["C13", "C14"], old="                send_type == TX_ROUTED\n                and to_node == write_direct\n                and self.frame_buf.header.from_node != self._addr", new="                to_node == write_direct\n                and self.frame_buf.header.from_node != self._addr"),
+]
